@@ -592,6 +592,37 @@ def direct_writers(F, field, adt=None):
     """Names of functions that assign to / mutably borrow <adt>.<field>, or build the struct (reported as the builder's name)."""
     adt = adt or GC_ADT
     out = {}
+    virt = None
+    if adt == GC_ADT:
+        for (i_, j_), (n_, nm_) in getattr(F, "flat", {}).items():
+            if nm_ == field:
+                virt = (i_, j_, F.flat_struct[i_]["adt"])
+    if virt is not None:
+        # a member of a private helper struct held by the connection: written as `self.<f>.<m>`, as `self.<m>` inside a
+        # method of the helper type (attributed to the callers of that method), or by replacing the whole struct
+        i_, j_, sadt = virt
+        for g in F.fns.values():
+            for b in g["blocks"]:
+                for st in b["stmts"]:
+                    if st["k"] != "assign":
+                        continue
+                    places = [st["lhs"]]
+                    if st["rv"]["k"] == "ref" and st["rv"].get("mut"):
+                        places.append(st["rv"]["place"])
+                    if st["rv"]["k"] == "agg" and st["rv"].get("adt") == adt:
+                        out.setdefault(owner_name(g), g)
+                    for k_, pl in enumerate(places):
+                        els = [el for el in pl["p"] if isinstance(el, dict)]
+                        hit = any(el.get("a") == sadt and el.get("f") == j_ for el in els)
+                        if not hit and k_ == 0:
+                            # whole-struct replacement: `self.<f> = ..` or `*self = ..` inside a method of the helper type
+                            if els and els[-1].get("a") == adt and els[-1].get("f") == i_ and pl["p"] and pl["p"][-1] is els[-1]:
+                                hit = True
+                            elif pl["p"] == ["*"] and g["locals"][pl["l"]].replace("&mut ", "").replace("&", "").split("<")[0] == sadt:
+                                hit = True
+                        if hit:
+                            out.setdefault(owner_name(g), g)
+        return out
     for g in F.fns.values():
         caps = [c.get("s", "") for c in g.get("captures", [])] if g.get("kind") == "Closure" else []
         for b in g["blocks"]:
